@@ -131,6 +131,15 @@ void h_run(void) {
   }
   sim_probe("tso_runs", tso);
   dq = wsd_work_stealing_deque_create();
+  /* the library starts every deque with 256 slots, which puts the growth path out of reach of short programs.
+   * Half of the runs start from an array of 1..8 slots instead (same constructor the library uses), so that
+   * a push grows the array while thieves are at work on it */
+  const int small_log = wl_pct(50) ? wl_int(0, 3) : -1;
+  if (small_log >= 0) {
+    wsd_circular_array_destroy(dq->underlying_array);
+    dq->underlying_array = wsd_circular_array_create((size_t)small_log);
+    sim_probe("small_initial_array", 1);
+  }
   sim_preempt_off();
   for (int i = 0; i < prefill; i++) {
     int v = g_push_begin();
@@ -157,7 +166,7 @@ void h_run(void) {
       if (present[v]) lost = v;
     sim_violation("C02-entry-lost", "%d entries pushed, %d handed out after the final drain (e.g. entry %d was dropped)", pushed_total, taken_total, lost);
   }
-  sim_probe("grown", dq->underlying_array->log_size > 8);
+  sim_probe("grown", small_log >= 0 ? dq->underlying_array->log_size > (size_t)small_log : dq->underlying_array->log_size > 8);
   wsd_work_stealing_deque_destroy(dq);
   sim_finish_ok();
 }
